@@ -17,11 +17,16 @@ HARNESSES = [kani.H(n, f"{n.split('_')[1]} Cow built {n.split('_')[2]}: scenario
 ASSUME = ["hook: metrics::VerifCow re-exports the private cow::Cow so that slices of a drop-counting element type can be built",
           "operation sequences are fixed per harness (6 scenarios x 3 construction kinds); lengths <= 2; Arc-backed values have a concrete length (symbolic allocation layouts are out of reach of the SAT back end)",
           "a leaked *empty* buffer (no elements) is not observable by element counting; Send/Sync are type-level and not checked here",
-          "Kani's memory-safety checks (pointer validity, double free) are the oracle for use-after-free and double free"]
+          "Kani's memory-safety checks (pointer validity, double free, dealloc layout) are the oracle for use-after-free, double free and releases with a wrong layout; natively they are "
+          "confirmed by a checking global allocator in the replay binary (block sizes in a header)"]
 
 
 def run(tier, seed, t0):
-    _kprop.run_kani("C14", tier, seed, t0, [("core", HARNESSES, dict(hooks=True))], ASSUME, FUNCS,
+    # "reads back exactly the content it was built from" includes what comparisons see: two values that share a start address but not a
+    # length (prefixes of one static buffer) are different contents (harness shared with C03)
+    import c03
+    alias = [h for h in c03.HARNESSES if h.name == "c03_alias_0"]
+    _kprop.run_kani("C14", tier, seed, t0, [("core", HARNESSES, dict(hooks=True)), ("core", alias, dict(hooks=True, stubbing=True))], ASSUME, FUNCS,
                     "Kani harnesses over Cow<str> / Cow<[D]> for every construction kind and six operation scenarios")
 
 
